@@ -28,7 +28,7 @@ def cases(tier):
     C.append(("Normal/Scale(class, model-dependent kwarg)", tfd.Normal, dict(loc=0.5, scale=2.0), ("class", tfb.Scale, (), dict(scale=3.0)), 1.3, ["var", "builder"]))
     C.append(("Normal/Shift(class, model-dependent positional arg)", tfd.Normal, dict(loc=0.5, scale=2.0), ("class", tfb.Shift, (1.5,), {}), 1.3, ["var"]))
     C.append(("Exponential/Exp", tfd.Exponential, dict(rate=1.5), ("instance", lambda: tfb.Exp()), 0.7, ["var"]))
-    C.append(("Uniform/default(parameter-dependent Sigmoid)", tfd.Uniform, dict(low=-1.0, high=2.0), ("default",), 0.5, ["var", "auto"]))
+    C.append(("Uniform/default(parameter-dependent Sigmoid)", tfd.Uniform, dict(low=-1.0, high=2.0), ("default",), 0.5, ["var", "auto", "auto-input"]))
     C.append(("InverseGamma/default", tfd.InverseGamma, dict(concentration=2.0, scale=0.5), ("default",), 1.3, ["auto"]))
     C.append(("HalfNormal/Exp", tfd.HalfNormal, dict(scale=1.5), ("instance", lambda: tfb.Exp()), 0.8, ["var"]))
     C.append(("Gamma vector (2,), per_obs=False / Exp", tfd.Gamma, dict(concentration=2.0, rate=0.5), ("instance", lambda: tfb.Exp()), (1.3, 0.6), ["var", "builder", "auto-default"]))
@@ -72,6 +72,12 @@ def build(label, D, params, bij, v0, entry):
     elif entry in ("auto", "auto-default"):
         x.auto_transform = True
         gb.add(x)
+    elif entry == "auto-input":
+        # the flagged variable is only reachable as an input of what is added to the builder
+        import tensorflow_probability.substrates.jax.distributions as tfd_
+        x.auto_transform = True
+        resp = lsl.obs(jnp.zeros(np.shape(np.asarray(v0))) + 0.3, lsl.Dist(tfd_.Normal, loc=x, scale=1.0), name="resp")
+        gb.add(resp)
     model = gb.build_model()
     return model, bvars, before
 
@@ -79,7 +85,7 @@ def build(label, D, params, bij, v0, entry):
 def scenario(chk, label, D, params, bij, v0, entry):
     import liesel.goose as gs
     model, bvars, before = build(label, D, params, bij, v0, entry)
-    name = f"{label} via {'Var.transform' if entry == 'var' else 'GraphBuilder.transform' if entry == 'builder' else 'auto_transform'}"
+    name = f"{label} via {'Var.transform' if entry == 'var' else 'GraphBuilder.transform' if entry == 'builder' else 'auto_transform (variable reachable only as an input)' if entry == 'auto-input' else 'auto_transform'}"
     if entry == "auto-default":
         name = f"{label.split('/')[0].strip()} / default bijector via auto_transform"
     # structural facts (concrete)
